@@ -1,15 +1,16 @@
 ------------------------------- MODULE MC_time -------------------------------
 (* Validity window (C09): credentials whose exp / nbf lie at many offsets around the clock, verified at several clock
-   positions, with and without key binding.  Offsets within the 120 s guard band are generated too: there the
+   positions, with and without key binding.  Offsets between the two certain zones are generated too: there the
    specification asserts nothing about acceptance (verdict "free") and must raise no alarm. *)
 EXTENDS MCUniverse
 CONSTANTS ExpOffsets, NbfOffsets
 
 Y == 31536000
-ExpFull == {-10 * Y, -Y, -86400, -3600, -600, -121, -30, 30, 121, 3600, 86400, Y, 2000000000}
-NbfFull == {-Y, -3600, -121, 30, 121, 600, 3600, 86400, 10 * Y}
-ExpQuick == {-Y, -3600, -121, -30, 30, 3600, Y}
-NbfQuick == {-3600, 30, 121, 3600, 10 * Y}
+\* (around the boundaries: -63 / +63 are just outside the leeway, -58 / +58 just inside it, +-3 just inside / outside the window)
+ExpFull == {-10 * Y, -Y, -86400, -3600, -600, -121, -90, -75, -66, -63, -58, -30, -3, 3, 10, 30, 121, 3600, 86400, Y, 2000000000}
+NbfFull == {-Y, -3600, -121, -10, -3, 3, 30, 58, 63, 66, 75, 90, 121, 600, 3600, 86400, 10 * Y}
+ExpQuick == {-Y, -3600, -121, -75, -63, -58, -30, 3, 10, 30, 3600, Y}
+NbfQuick == {-3600, -3, 30, 58, 63, 75, 121, 3600, 10 * Y}
 ExpSpecs == {[k |-> "int", v |-> o] : o \in ExpOffsets} \cup {[k |-> "absent", v |-> 0], [k |-> "nan", v |-> 0], [k |-> "nan", v |-> 1],
               \* fixed instants -5, 0, 59, 1000 (seconds since the epoch), encoded as offsets near -2*10^9
               [k |-> "int", v |-> -2000000000], [k |-> "int", v |-> -1999999999], [k |-> "int", v |-> -1999999998], [k |-> "int", v |-> -1999999997]}
